@@ -168,10 +168,17 @@ func (w *World) runCall(ctx context.Context, cs *CallState) {
 				v.Set("tcp-method", c.Method)
 			}
 			v.Set("e2e-queries", strconv.Itoa(c.E2E))
-			v.Set("ipv6", strconv.FormatBool(c.WantV6))
-			v.Set("reverse-dns", strconv.FormatBool(c.ReverseDNS))
-			v.Set("source-public-ip", strconv.FormatBool(c.PublicIP))
-			v.Set("skip-private-hops", strconv.FormatBool(c.SkipPrivate))
+			fb := func(b bool) string {
+				t, f := [...]string{"true", "1", "TRUE", "True"}, [...]string{"false", "0", "FALSE", "False"}
+				if b {
+					return t[c.BoolStyle%4]
+				}
+				return f[c.BoolStyle%4]
+			}
+			v.Set("ipv6", fb(c.WantV6))
+			v.Set("reverse-dns", fb(c.ReverseDNS))
+			v.Set("source-public-ip", fb(c.PublicIP))
+			v.Set("skip-private-hops", fb(c.SkipPrivate))
 			q = v.Encode()
 		}
 		req := httptest.NewRequest(http.MethodGet, "/traceroute?"+q, nil).WithContext(ctx)
